@@ -166,7 +166,7 @@ struct Driver
 
     // ------------------------------------------------------------ shrinking
     struct Target { std::string cls, site; };
-    int shrink_budget = 400, shrink_used = 0;
+    int shrink_budget = 600, shrink_used = 0;
     bool still_fails(Plan const &p, Target const &t)
     {
         if (shrink_used >= shrink_budget) return false;
@@ -215,14 +215,19 @@ struct Driver
         for (size_t i = 0; i < p.ops.size(); ++i)
             for (int k = 0; k < 4; ++k)
             {
-                int64_t v = p.ops[i].a[k];
-                if (v == 0) continue;
-                int64_t cands[3] = {0, v / 2, v > 0 ? v - 1 : v + 1};
-                for (int c = 0; c < 3; ++c)
+                for (int round = 0; round < 24; ++round)
                 {
-                    if (cands[c] == p.ops[i].a[k]) continue;
-                    Plan q = p; q.ops[i].a[k] = cands[c];
-                    if (still_fails(q, t)) { p = q; break; }
+                    int64_t v = p.ops[i].a[k];
+                    if (v == 0) break;
+                    int64_t cands[3] = {0, v / 2, v > 0 ? v - 1 : v + 1};
+                    bool improved = false;
+                    for (int c = 0; c < 3; ++c)
+                    {
+                        if (cands[c] == p.ops[i].a[k]) continue;
+                        Plan q = p; q.ops[i].a[k] = cands[c];
+                        if (still_fails(q, t)) { p = q; improved = true; break; }
+                    }
+                    if (!improved || shrink_used >= shrink_budget) break;
                 }
             }
         for (size_t i = 0; i < p.ops.size(); ++i)
@@ -528,6 +533,10 @@ struct Driver
     {
         double const t0 = now_s();
         mkdirs(out_dir);
+        { // start from an empty output directory: replays of earlier runs would be mistaken for this run's
+            std::string cmd = "rm -f '" + out_dir + "'/*.replay '" + out_dir + "'/*.plan 2>/dev/null";
+            if (system(cmd.c_str()) != 0) {}
+        }
         load_known();
         if (!runs) runs = eng->default_runs(prop, tier);
         double deadline = max_seconds > 0 ? t0 + max_seconds : 0;
@@ -559,7 +568,7 @@ struct Driver
         }
         // group, shrink, gate
         int exit_code = 0;
-        uint64_t new_violations = 0, harness_errors = 0;
+        uint64_t new_violations = 0, harness_errors = 0, foreign_notes = 0;
         std::map<std::pair<std::string, std::string>, std::vector<RawViolation>> groups;
         for (auto const &rv : bo.viol) groups[{rv.cls, rv.site}].push_back(rv);
         for (auto const &rv : bo.known) groups[{rv.cls, rv.site}].push_back(rv);
@@ -572,6 +581,12 @@ struct Driver
             if (rv.path.empty()) { ++harness_errors; printf("HARNESS-ERROR property=%s item=%llu crash did not reproduce in record mode\n", prop.c_str(), (unsigned long long)rv.idx); continue; }
             Plan p; std::string err;
             if (!plan_from_text(read_file(rv.path), *eng, p, err)) { ++harness_errors; printf("HARNESS-ERROR property=%s cannot parse %s: %s\n", prop.c_str(), rv.path.c_str(), err.c_str()); continue; }
+            if (eng->foreign(p))
+            {
+                printf("NOTE property=%s item=%llu: a history without any injected fault fails (%s at %s); that belongs to the fault-free check of the container, not to %s\n", prop.c_str(), (unsigned long long)rv.idx, rv.cls.c_str(), rv.site.c_str(), prop.c_str());
+                ++foreign_notes;
+                continue;
+            }
             // establish the class/site as observed when the plan runs alone in a child
             Outcome o0 = run_plan_child(p);
             if (!o0.violated) { ++harness_errors; printf("HARNESS-ERROR property=%s item=%llu violation (%s at %s) did not recur when its plan was re-executed\n", prop.c_str(), (unsigned long long)rv.idx, rv.cls.c_str(), rv.site.c_str()); continue; }
@@ -613,6 +628,8 @@ struct Driver
         // remove raw files
         for (auto const &rv : bo.viol) if (!rv.path.empty()) unlink(rv.path.c_str());
         for (auto const &rv : bo.known) if (!rv.path.empty()) unlink(rv.path.c_str());
+        for (auto const &rv : bd.known) if (!rv.path.empty()) unlink(rv.path.c_str());
+        for (auto const &rv : bd.viol) if (!rv.path.empty()) unlink(rv.path.c_str());
         double const wall = now_s() - t0;
         write_evidence(bo, wall, compared, mismatches, new_violations, known_lines, viol_lines);
         if (new_violations) exit_code = 1;
